@@ -262,12 +262,26 @@ func vCanonDiff(a, b map[channel.Key][]vCanon) string {
 
 // ---------------------------------------------------------------- CodecLayout
 
+// vLDec is one expected decoded series, on the wire as [k, a, ts, te, [raw indices]].
 type vLDec struct {
-	K   int   `json:"k"`
-	A   int   `json:"a"`
-	Ts  int   `json:"ts"`
-	Te  int   `json:"te"`
-	Src []int `json:"src"`
+	K, A, Ts, Te int
+	Src          []int
+}
+
+func (d *vLDec) UnmarshalJSON(b []byte) error {
+	var raw []json.RawMessage
+	if err := json.Unmarshal(b, &raw); err != nil {
+		return err
+	}
+	if len(raw) != 5 {
+		return fmt.Errorf("expected series needs 5 fields, has %d", len(raw))
+	}
+	for i, dst := range []*int{&d.K, &d.A, &d.Ts, &d.Te} {
+		if err := json.Unmarshal(raw[i], dst); err != nil {
+			return err
+		}
+	}
+	return json.Unmarshal(raw[4], &d.Src)
 }
 type vLExp struct {
 	F int     `json:"f"`
